@@ -90,6 +90,16 @@ func inline(s map[string]any, leafDef map[string]any) map[string]any {
 // value draws a value for schema s, inside or outside.
 func (b *builder) value(s map[string]any, outside bool) any {
 	v := gen.Satisfying(b.t, s)
+	if s["type"] == "integer" && rapid.IntRange(0, 1).Draw(b.t, "onbound") == 0 {
+		// a value sitting exactly on a bound: inside or outside depending on the exclusive flags (the model decides)
+		if rapid.Bool().Draw(b.t, "whichbound") {
+			if mn, ok := s["minimum"]; ok {
+				return mn
+			}
+		} else if mx, ok := s["maximum"]; ok {
+			return mx
+		}
+	}
 	if !outside {
 		return v
 	}
@@ -357,6 +367,25 @@ func genCase(t *rapid.T) Case {
 			r["headers"] = map[string]any{"X-Deco": map[string]any{"type": "integer", "minimum": gen.Number(1), "maximum": gen.Number(5)},
 				"X-DecoArr":  map[string]any{"type": "array", "items": map[string]any{"type": "string", "enum": []any{"red", "green"}}},
 				"X-DecoArr2": nested()}
+		}
+		// one-sided exclusive bounds on the numeric parameter and header (the same in both documents)
+		exQ, exH := rapid.IntRange(0, 2).Draw(t, "exclusiveQ"), rapid.IntRange(0, 2).Draw(t, "exclusiveH")
+		for _, d := range []map[string]any{doc, base} {
+			op := d["paths"].(map[string]any)[oi.Path].(map[string]any)[oi.Method].(map[string]any)
+			ps := op["parameters"].([]any)
+			q := ps[len(ps)-2].(map[string]any)
+			h := op["responses"].(map[string]any)["200"].(map[string]any)["headers"].(map[string]any)["X-Deco"].(map[string]any)
+			for _, pair := range []struct {
+				m  map[string]any
+				ex int
+			}{{q, exQ}, {h, exH}} {
+				switch pair.ex {
+				case 1:
+					pair.m["exclusiveMinimum"] = true
+				case 2:
+					pair.m["exclusiveMaximum"] = true
+				}
+			}
 		}
 		op := doc["paths"].(map[string]any)[oi.Path].(map[string]any)[oi.Method].(map[string]any)
 		ps := op["parameters"].([]any)
